@@ -264,7 +264,7 @@ def oracle_mosek_dual(n, c, A, b, K):
 
 
 # ------------------------------------------------------------ generators
-CONES = [('0', 1), ('0', 2), ('+', 1), ('+', 2), ('S', 2), ('S', 3), ('S', 4), ('e', 3)]
+CONES = [('0', 1), ('0', 2), ('+', 1), ('+', 2), ('S', 1), ('S', 2), ('S', 3), ('S', 4), ('e', 3)]
 
 
 def gen_instance(rng, K, n):
@@ -306,6 +306,10 @@ def gen_Ks(ctx):
     for ln in range(1, L + 1):
         for K in itertools.product(base, repeat=ln):
             Ks.append(list(K))
+    # second-order cones of every small length next to each other (a cone of length 1 is t >= 0)
+    for a_, b_ in itertools.product((1, 2, 3), repeat=2):
+        Ks.append([('S', a_), ('S', b_)])
+        Ks.append([('+', 1), ('S', a_), ('S', b_), ('0', 1)])
     nexh = len(Ks)
     for _ in range(ctx.n(150, 1500)):
         Ks.append([ctx.rng.choice(CONES) for _ in range(ctx.rng.randint(1, 7))])
